@@ -598,6 +598,15 @@ impl Driver {
                 }
                 self.line(json!({"ev":"height","h":h}));
             }
+            "stale" => {
+                // a late or repeated block_added notification: the node's height does not change
+                let h = step["h"].as_u64().unwrap_or(0) as u32;
+                if let Some(w) = self.watcher.clone() {
+                    tokio::spawn(async move { let blk = crate::messages::BlockAdded { height: h }; crate::await_if_future!(w.new_block(&blk)) });
+                    settle().await;
+                }
+                self.line(json!({"ev":"stale","h":h}));
+            }
             "wp" => {
                 // Engine A-prov: direct call of wait_payment
                 let hash = step["hash"].as_str().unwrap_or("h1").to_string();
@@ -791,6 +800,10 @@ impl Driver {
             if r.heights {
                 let h = sim::with(|s| s.height);
                 v.push((2, json!({"a":"height","h":h + 1 + self.rng.below(3) as u32})));
+                if self.watcher.is_some() && h > 3 {
+                    // a block_added notification for an older block arrives late (or is repeated)
+                    v.push((1, json!({"a":"stale","h":h - 1 - self.rng.below(3) as u32})));
+                }
             }
             if self.crashes_left > 0 {
                 let back = if r.clockback && self.rng.below(2) == 0 { 1 + self.rng.below(3) } else { 0 };
